@@ -264,12 +264,12 @@ fn step(s: &mut Session, sink: &mut Sink, op: &str, req: &str, x: usize, y: usiz
     let corner = if spec_op { selfmerge_geometry(s, op, s.nodes[x], s.nodes[y]) } else { None };
     // `replace(a, b)` in the self-merge geometry with a text node directly behind `a`: the corner
     // `Spec.selfMergeReplace` (finding `C05:replace-selfmerge-leaves-adjacent-text`); remembered
-    // with the text node before `b`, which takes in `b`'s data
-    let replace_corner: Option<Node> = if op == "replace" && corner == Some("replace") {
+    // with the text node before `b`, which takes in `b`'s data, and the text node `z` behind `a`
+    let replace_corner: Option<(Node, Node)> = if op == "replace" && corner == Some("replace") {
         let a = s.nodes[x];
         let b = s.nodes[y];
         match (s.xot.next_sibling(a), s.xot.previous_sibling(b)) {
-            (Some(z), Some(p)) if s.xot.is_text(z) => Some(p),
+            (Some(z), Some(p)) if s.xot.is_text(z) => Some((p, z)),
             _ => None,
         }
     } else {
@@ -423,16 +423,18 @@ fn step(s: &mut Session, sink: &mut Sink, op: &str, req: &str, x: usize, y: usiz
         }
         if op == "replace" {
             let content = erase_labels(&s.dump());
-            // xot's own reading (`specReplaceK`): always
-            sink.lines.insert(mark, (format!("forest specpk {}", req), content.clone()));
-            sink.lines.insert(mark + 1, (format!("forest specpkx {}", req), "1".into()));
             // the corner predicate of the model against the geometry read off the implementation
-            sink.lines.insert(mark + 2, (format!("forest specpc {}", req), if replace_corner.is_some() { "1" } else { "0" }.into()));
-            sink.stat("specpk.checked");
-            // the reading the property demands (`specReplaceP`): everywhere but in the corner, as long
-            // as the implementation leaves the two text nodes that became adjacent there unmerged
+            sink.lines.insert(mark, (format!("forest specpc {}", req), if replace_corner.is_some() { "1" } else { "0" }.into()));
+            if replace_corner.is_some() {
+                sink.stat("geometry.selfmerge.replace.corner");
+            }
+            // the reading the property demands (`specReplaceP`): on every forest, the corner included
+            // since xot 609b613.  The oracle of the former finding stays: in the corner the text node
+            // that took in the replacing text and the text node behind the replaced node became
+            // adjacent in this call and must have been merged (it must never fire any more)
+            // (`z` itself must be gone: a text node behind `z` was next to `z` before the call and stays)
             let unmerged = match replace_corner {
-                Some(p) => !s.xot.is_removed(p) && s.xot.is_text(p) && s.xot.next_sibling(p).map(|z| s.xot.is_text(z)).unwrap_or(false),
+                Some((p, z)) => !s.xot.is_removed(p) && s.xot.is_text(p) && !s.xot.is_removed(z) && s.xot.next_sibling(p) == Some(z),
                 None => false,
             };
             if unmerged {
@@ -444,6 +446,9 @@ fn step(s: &mut Session, sink: &mut Sink, op: &str, req: &str, x: usize, y: usiz
                     &s.history,
                 );
             } else {
+                if replace_corner.is_some() {
+                    sink.stat("geometry.selfmerge.replace.merged");
+                }
                 sink.lines.insert(mark, (format!("forest specp {}", req), content));
                 sink.lines.insert(mark + 1, (format!("forest specpx {}", req), "1".into()));
                 sink.stat("specp.checked");
